@@ -5,27 +5,28 @@ CONSTANTS
   Amounts = {1000}
   NFund = 2
   MaxH = 6
-  MaxLog = 2
+  MaxLog = 1
   UseLate = FALSE
   UseTtl = FALSE
-  UseInvoice = TRUE
-  UseAccounts = TRUE
-  UseMineTo = TRUE
+  UseInvoice = FALSE
+  UseAccounts = FALSE
+  UseMineTo = FALSE
   UseCancelBySlate = FALSE
   MaxAdv = 1
   MaxFork = 0
-  UseScan = FALSE
-  UseDiverge = FALSE
+  UseScan = TRUE
+  UseDiverge = TRUE
   UseAdv = FALSE
 SPECIFICATION Spec
 INVARIANT TypeOK
-INVARIANT Inv_Exclusive
-PROPERTY Prop_Replay
-PROPERTY Prop_SelectAvoidsReserved
 PROPERTY Prop_Cancel
 PROPERTY Prop_Foreign
 PROPERTY Prop_Paths
 PROPERTY Prop_Ttl
+PROPERTY Prop_Books
+PROPERTY Prop_Isolation
+PROPERTY Prop_Scan
+PROPERTY Prop_RevertedRestored
 PROPERTY EmitEdges
 CONSTRAINT Bound
 VIEW View
